@@ -342,18 +342,7 @@ def run(model: Model, rep: Report, tier: str) -> None:
     else:
         rep.unknown("R14.2", construct(f, "blanket"), f"{len(paths)} return paths", loc(f))
 
-    # disorient / moralize: by reference comparison (graphs compared by what they contain)
-    from .. import nxden as _nxden
-    from ..refcmp import load_reference as _lr, run_table as _rt
-    from .common import graph_rewrite, rewriter
-    if "yvref.c14" not in model.modules:
-        _lr(model, "yvref.c14", "c14_ref.py")
-    _GT = ("cls", NXMG)
-    _rt(model, rep, [
-        ("R14.2", f"{NXMG}.disorient", "flat_graph", {"self": _GT}, (), "flat-graph", "a fresh undirected graph with every node and both edge families", {"impl_self_type": _GT}),
-        ("R14.2", f"{NXMG}.moralize", "moralized", {"self": _GT}, (), "moral-links", "a copy of the graph with every two parents of every node married", {"impl_self_type": _GT}),
-    ], "yvref.c14", lambda m_, prims: (lambda: Evaluator(m_, primitives=set(prims), prim_methods={"add_node", "add_directed_edge", "add_undirected_edge"})),
-        SetAlg(rewriter(graph_rewrite)), construct=construct, loc=loc, post=_nxden.post)
+    flat_graph_rows(model, rep, "R14.2")
 
     # copy
     f = method("copy")
@@ -497,3 +486,20 @@ def intervened_ancestor_rows(model: Model, rep: Report, rule: str) -> None:
     def _mk(model_, prims_=()):
         return lambda: Evaluator(model_, primitives=set(prims_))
     run_table(model, rep, rows, "yvref.c14", _mk, SetAlg(rewriter(graph_rewrite)), construct=construct, loc=loc)
+
+
+def flat_graph_rows(model: Model, rep: Report, rule: str, which=("disorient", "moralize")) -> None:
+    """disorient / moralize by reference comparison (graphs compared by what they contain); also run by the properties whose paths are
+    enumerated on the flat graph."""
+    from .. import nxden as _nxden
+    from ..refcmp import load_reference as _lr, run_table as _rt
+    if "yvref.c14" not in model.modules:
+        _lr(model, "yvref.c14", "c14_ref.py")
+    _GT = ("cls", NXMG)
+    rows = [
+        (rule, f"{NXMG}.disorient", "flat_graph", {"self": _GT}, (), "flat-graph", "a fresh undirected graph with every node and both edge families", {"impl_self_type": _GT}),
+        (rule, f"{NXMG}.moralize", "moralized", {"self": _GT}, (), "moral-links", "a copy of the graph with every two parents of every node married", {"impl_self_type": _GT}),
+    ]
+    rows = [r for r in rows if r[1].split(".")[-1] in which]
+    _rt(model, rep, rows, "yvref.c14", lambda m_, prims: (lambda: Evaluator(m_, primitives=set(prims), prim_methods={"add_node", "add_directed_edge", "add_undirected_edge"})),
+        SetAlg(rewriter(graph_rewrite)), construct=construct, loc=loc, post=_nxden.post)
